@@ -174,7 +174,10 @@ def run_gmres(ctx, case, M, b, x0, m, counter):
     A = counting_operator(M, counter)
     if case["via"] == "gmres":
         from cola.linalg.inverse.gmres import gmres
-        out = ctx.call(gmres, A, b, x0=x0, max_iters=m, tol=case["tol"])
+        if case["seed"] % 3 == 0:  # the documented positional form gmres(A, rhs, x0, max_iters, tol)
+            out = ctx.call(gmres, A, b, x0, m, case["tol"])
+        else:
+            out = ctx.call(gmres, A, b, x0=x0, max_iters=m, tol=case["tol"])
         return out if is_err(out) else np.asarray(out[0])
     from cola.linalg import GMRES, inv
     x0m = None if x0 is None else np.asarray(x0).reshape(M.shape[0], -1)
